@@ -212,6 +212,11 @@ structure RunSt where
 
 def stepId (S : Spec) (st : RunSt) (id : String) : Except String RunSt :=
   if id == "NOP" then .ok st
+  else if id.startsWith "PUSH#" then
+    -- the basic PUSH of the `-push-basic` encoding, with the constant the model assigns to `a_j`
+    match (id.drop 5).toString.toNat? with
+    | some n => .ok { st with stack := .const n :: st.stack, peak := max st.peak (st.stack.length + 1) }
+    | none => .error s!"{id}: pushed constant is not a natural number"
   else if id == "POP" then
     match st.stack with
     | _ :: r => .ok { st with stack := r }
